@@ -14,7 +14,10 @@ def runSymbase (c : Case) : Res :=
     let abortB := c.lines.any (fun l => l.head? == some "implB" && (l[1]? == some "abort" || l[1]? == some "panic"))
     if abortA || abortB then
       if abortA == abortB then { verdict := "ok", tags := ["nt=", "abort=1"] }
-      else { verdict := "ORACLE", tags := ["of=C16", "nt=C16", "abort=1"], msg := "one of the two runs aborts, the other does not" }
+      else
+        let panicked := c.lines.any (fun l => (l.head? == some "implA" || l.head? == some "implB") && l[1]? == some "panic")
+        { verdict := "ORACLE", tags := [if panicked then "of=C16,C05" else "of=C16", "nt=C16", "abort=1"],
+          msg := "one of the two runs aborts, the other does not" ++ (if panicked then " (panic)" else "") }
     else
       let problems := as.filterMap (fun (a : ImplSec) =>
         match bs.find? (fun (b : ImplSec) => b.sec == a.sec) with
@@ -47,11 +50,23 @@ def symSpecOk (s : String) : Bool :=
      | _, _ => false)
   | _ => false
 
+/-- the entry a well-formed `SYM:shares:acb` string stands for: symbol (trimmed, letter case kept),
+    shares, cost base -/
+def symEntry? (s : String) : Option (String × Rat × Rat) :=
+  match s.splitOn ":" with
+  | [sym, sh, acb] => do
+    let a ← parseRat? sh
+    let b ← parseRat? acb
+    some (sym.trimAscii.toString, a, b)
+  | _ => none
+
 def runSymparse (c : Case) : Res :=
   let expect := (kv? c.header "expect").getD "?"
-  let input := ((c.lines.find? (fun l => l.head? == some "in")).bind (fun l => l[1]?)).getD ""
-  let input := input.replace "\\s" " "
-  let got := ((c.lines.find? (fun l => l.head? == some "impl")).bind (fun l => l[1]?)).getD "?"
+  let which := ((kv? c.header "which").bind (·.toNat?)).getD 0
+  let ins := (c.lines.filter (fun l => l.head? == some "in")).map (fun l => ((l[1]?).getD "").replace "\\s" " ")
+  let input := (ins[which]?).getD ""
+  let implLine := (c.lines.find? (fun l => l.head? == some "impl")).getD []
+  let got := (implLine[1]?).getD "?"
   let model := if symSpecOk input then "ok" else "err"
   let tags := ["nt=C16", s!"expect={expect}"]
   if got == "panic" then { verdict := "DIFF", tags := "dk=panic" :: tags, msg := "parse_initial_status panicked" }
@@ -59,6 +74,24 @@ def runSymparse (c : Case) : Res :=
     { verdict := "ORACLE", tags := "of=C16" :: tags, msg := s!"-b '{input}': expected {expect}, implementation says {got}" }
   else if model ≠ got then
     { verdict := "DIFF", tags := "dk=parse" :: tags, msg := s!"-b '{input}': model {model}, implementation {got}" }
+  else if got == "ok" then
+    -- the parsed table: one entry per symbol (a later entry replaces an earlier one of the same
+    -- symbol), each with exactly the given symbol, shares and cost base
+    let entries := ins.filterMap symEntry?
+    let table := entries.foldl (fun (acc : List (String × Rat × Rat)) e => (acc.filter (fun x => x.1 != e.1)) ++ [e]) []
+    let implItems := (implLine.drop 2).filterMap (fun it =>
+      match (it.replace "\\s" " ").splitOn "|" with
+      | [k, sec, sh, acb] => do
+        let a ← parseRat? sh
+        let b ← parseRat? acb
+        some (k, sec, a, b)
+      | _ => none)
+    let bad := table.filter (fun (sym, sh, acb) =>
+      !(implItems.any (fun (k, sec, a, b) => k == sym && sec == sym && a == sh && b == acb)))
+    if implItems.length ≠ table.length || !bad.isEmpty then
+      { verdict := "ORACLE", tags := "of=C16" :: tags,
+        msg := s!"-b {ins}: the parsed opening positions {implLine.drop 2} are not the entries given (symbol kept as written, shares, cost base)" }
+    else { verdict := "ok", tags := tags }
   else { verdict := "ok", tags := tags }
 
 end Driver
